@@ -1119,6 +1119,27 @@ struct PairDriver : DriverBase<PairDriver<A, B>> {
                 SIM_COUNT("F6.self_copy_assign");
             }
             etl::pair<int, int> conv(v0, v1);
+            // converting move assignment from a pair whose second element is an lvalue reference: the referent must be
+            // copied from, not moved from
+            if constexpr (std::is_copy_assignable_v<B> && is_tracked_v<B>) {
+                if (op == "convert_assign" && st.k[0] % 3 == 2) {
+                    B referent(v1);
+                    bool ok2 = call(a, false, false, [&] {
+                        etl::pair<int, B&> src(v0, referent);
+                        p = static_cast<etl::pair<int, B&>&&>(src);
+                    });
+                    if (ok2) {
+                        if (referent.v != v1) {
+                            ctx.violation("C20", "diff:pair:reference-element-moved-from", "assigning from pair<U1, T&>&& moved from the referent instead of copying it");
+                        }
+                        model[a]  = M(v0, v1);
+                        unspec[a] = false;
+                        ++ctx.stateChanging;
+                        ++ctx.boundaryEvents;
+                    }
+                    return;
+                }
+            }
             bool ok = call(a, false, false, [&] {
                 if (op == "copy_assign") {
                     if constexpr (copyable) {
